@@ -458,6 +458,7 @@ func (o *vobj) WriteAt(p []byte, off int64) (int, error) {
 }
 
 func (o *vobj) Close() error {
+	o.v.gate.pass("close:" + itoa(o.id)) // a slow Close (the harness may hold it)
 	o.mu.Lock()
 	o.closed++
 	o.v.ev("ObjClose", kv{"obj": o.id, "kind": o.kind, "inflight": o.inflt, "nclose": o.closed})
